@@ -6,6 +6,7 @@ affine permutation of each entry point's full cross-product); the run then
 executes under a seeded deployment (worker count, schedule, stragglers,
 stalls where a timeout exists, callbacks) with the progress monitors armed.
 """
+import os
 import random
 
 from simkit import report
@@ -27,18 +28,38 @@ ASSUMPTIONS = [
     "an exception injected by the harness (stalled worker => timeout errors, failing optimiser) is never counted as an abort",
     "SimPool models CPython 3.12 multiprocessing.Pool (fork) as tabulated in DESIGN.md 2.2",
     "tr-rbf has no convex solver installed in this sandbox and is refused up front (counted as refused)",
+    "the number-of-RC suggestion (public suggest_num_RC / suggest_num_RC_limits / suggest_representation, to which the Kramers-Kronig entry points forward **kwargs by documentation) is an analysis of its own: a TypeError/ValueError raised by pyimpspec's own raise statement in the body of these functions or their method dispatchers counts as refused by argument validation (probe outcome_refused_by_suggestion), anything raised deeper is an abort",
 ]
 EXPECTED_PROBES = ["F1", "F2", "pool_map_path", "prefetch_partial"]
 
 PLAN = {
-    "quick": {"workloads": 2000, "variants": 2, "wall_budget": 40.0, "min_variants": 1, "wall_limit": 1500.0, "per_job_limit": 600.0},
-    "thorough": {"workloads": 40000, "variants": 3, "wall_budget": 90.0, "min_variants": 1, "wall_limit": 8 * 3600.0, "per_job_limit": 1800.0},
+    "quick": {"workloads": 2400, "variants": 2, "wall_budget": 40.0, "min_variants": 1, "wall_limit": 1500.0, "per_job_limit": 600.0},
+    "thorough": {"workloads": 48000, "variants": 3, "wall_budget": 90.0, "min_variants": 1, "wall_limit": 8 * 3600.0, "per_job_limit": 1800.0},
 }
 
 ENTRY_FUNCS = {
     "perform_kramers_kronig_test", "perform_exploratory_kramers_kronig_tests", "evaluate_log_F_ext",
     "perform_zhit", "fit_circuit", "calculate_drt", "calculate_drt_tr_nnls", "calculate_drt_bht",
     "calculate_drt_lm", "calculate_drt_mrq_fit", "calculate_drt_tr_rbf", "_evaluate_representations",
+}
+
+# The number-of-RC suggestion is a documented analysis of its own (public suggest_num_RC, suggest_num_RC_limits,
+# suggest_representation, operating on finished test results); perform_kramers_kronig_test and
+# perform_exploratory_kramers_kronig_tests forward **kwargs to it by documentation.  A TypeError/ValueError that a
+# `raise` statement of pyimpspec itself issues in the body of these functions or of their method dispatchers is that
+# analysis' argument validation ("refused", counted as outcome_refused_by_suggestion), although the composite entry
+# point has performed its fits by then.  Anything raised deeper (numerical helpers) or by another exception class
+# stays an abort.
+SUGGESTION_VALIDATORS = {
+    ("analysis/kramers_kronig/algorithms/__init__.py", "suggest_num_RC"),
+    ("analysis/kramers_kronig/algorithms/__init__.py", "suggest_num_RC_limits"),
+    ("analysis/kramers_kronig/algorithms/__init__.py", "suggest_representation"),
+    ("analysis/kramers_kronig/algorithms/__init__.py", "_choose_methods"),
+    ("analysis/kramers_kronig/algorithms/__init__.py", "_suggest_using_default"),
+    ("analysis/kramers_kronig/algorithms/__init__.py", "_suggest_using_mean"),
+    ("analysis/kramers_kronig/algorithms/__init__.py", "_suggest_using_ranking"),
+    ("analysis/kramers_kronig/algorithms/__init__.py", "_suggest_using_sum"),
+    ("analysis/kramers_kronig/algorithms/method_1.py", "suggest"),
 }
 
 _GROUPS = None
@@ -50,6 +71,9 @@ def _group_for(j, tier, seed):
     key = (tier, seed)
     if _GROUPS is None or _GROUPS[0] != key:
         w = options.GROUP_WEIGHTS[tier]
+        only = [g for g in os.environ.get("VERIF_C18_GROUPS", "").split(",") if g]  # discovery sweeps over some groups only
+        if only:
+            w = {g: v for g, v in w.items() if g in only}
         names = sorted(w)
         total = sum(w.values())
         # low-discrepancy assignment: job j goes to the group whose quota is most behind
@@ -126,6 +150,8 @@ def classify(wl, out):
         own_raise = bool(out.exc_frames) and out.exc_frames[-1][0] not in ("<ext>", "<simkit>")
         if steps <= 1 and (innermost[1] in ENTRY_FUNCS or own_raise):
             return "refused", None
+    if out.exc_class in ("TypeError", "ValueError") and not in_progress and bool(out.exc_frames) and tuple(out.exc_frames[-1][:2]) in SUGGESTION_VALIDATORS:
+        return "refused_by_suggestion", None
     if out.exc_class == "SimDeadlock" and out.stall_injected:
         return "injected", None
     func = innermost[1]
